@@ -222,6 +222,12 @@ def rule_r3_copy(ck, prog, cls='trace::TraceState', rule='C14.R3', api='KeyValue
 
             # decision table: the comparison of the entry's key with the given key is pinned to "equal" and the captured "a member
             # is inserted" flag of Set to true: the entry must not be copied; with "different" it must be
+            # captured flags the callback itself modifies carry state from one entry to the next: they are not a fixed "a member is
+            # inserted" fact and stay open (an exclusion that only holds for the first matching entry is no exclusion)
+            written = {lf.nodes[i_].get('name') for wn in lf.nodes if wn['k'] == 'binop' and wn['op'].endswith('=') and wn['op'] not in ('==', '!=', '<=', '>=')
+                       for i_ in list(lf.subtree(wn['lhs'])) + [wn['lhs']] if lf.nodes[i_]['k'] == 'ref'}
+            written |= {lf.nodes[i_].get('name') for wn in lf.nodes if wn['k'] == 'unop' and wn['op'] in ('++', '--') for i_ in list(lf.subtree(wn['e'])) + [wn['e']] if lf.nodes[i_]['k'] == 'ref'}
+
             def pins_for(equal):
                 pins = {}
                 for cn in lf.nodes:
@@ -230,7 +236,7 @@ def rule_r3_copy(ck, prog, cls='trace::TraceState', rule='C14.R3', api='KeyValue
                         names = {lf.nodes[i_]['name'] for o in ops for i_ in lf.subtree(o) if lf.nodes[i_]['k'] == 'ref'}
                         if keyname in names and lf.params[0]['name'] in names:
                             pins[cn['i']] = equal if cn['op'] == '==' else (not equal)
-                    elif cn['k'] == 'ref' and cn.get('cap') and 'bool' in (cn.get('t') or ''):
+                    elif cn['k'] == 'ref' and cn.get('cap') and 'bool' in (cn.get('t') or '') and cn.get('name') not in written:
                         pins[cn['i']] = True
                 return pins
             ok = bool(pins_for(True)) and feasible_reach(lg, [lg.entry], adds, pins=pins_for(True)) is None and \
@@ -613,9 +619,63 @@ def rule_r7(ck, prog, rule='C14.R7'):
     return done
 
 
+def rule_r2_valid_member_is_stored(ck, prog, rule='C14.R2', cls='trace::TraceState'):
+    """parsing and Set accept the same members: inside the member loop of FromHeader a member the tokenizer reported well-formed and
+    that passes IsValidKey / IsValidValue is stored - with those three pinned to "valid" no path leaves the iteration (next member,
+    early return, break) without AddEntry.  An extra gate in front of the validators (a stricter length pre-check, say) makes the
+    header of a state that Set built parse back to the empty state."""
+    from .common import body_entry
+    f = prog.function(cls + '::FromHeader')
+    g = Graph(prog, f, inline=same_class_inline(prog, f.cls or ''), sync_lambdas=False, max_depth=1)
+    loops = [l for l in f.nodes if l['k'] in ('while', 'for', 'do') and any(f.nodes[i]['k'] == 'call' and strip_targs(f.nodes[i].get('c', '')).endswith('::AddEntry') for i in f.subtree(l['body']))]
+    if len(loops) != 1:
+        raise AnalysisBroken('%s::FromHeader: member loop not found' % cls)
+    lp = loops[0]
+    start = body_entry(g, f, lp)
+    body = set(f.subtree(lp['body']))
+    adds = [p for p in g.points if p.f is f and p.n is not None and p.n['i'] in body and p.n['k'] == 'call' and strip_targs(p.n.get('c', '')).endswith('::AddEntry')]
+    if start is None or not adds:
+        ck.inconclusive(rule, f, 'valid-member-is-stored', lp, 'iteration start / insertion not found')
+        return
+    pins = {}
+    env0 = {}
+    # the tokenizer's validity flag: the bool local its next() call fills
+    flags = set()
+    for n in f.nodes:
+        if n['k'] == 'call' and strip_targs(n.get('c', '')).endswith('KeyValueStringTokenizer::next'):
+            for a in n.get('args', [])[:1]:
+                an = strip_casts(f, a)
+                if an['k'] == 'ref':
+                    flags.add(an['id'])
+    for i in sorted(body):
+        n = f.nodes[i]
+        if n['k'] == 'call' and strip_targs(n.get('c', '')).rsplit('::', 1)[-1] in ('IsValidKey', 'IsValidValue'):
+            pins[i] = True
+        c = comparison(f, i)
+        if c and c[0] in ('==', '!='):
+            l, r = strip_casts(f, c[1]), strip_casts(f, c[2])
+            for x, y in ((l, r), (r, l)):
+                if x['k'] == 'ref' and x.get('id') in flags and y.get('v') in (0, 1):
+                    pins[i] = (bool(y['v']) is True) if c[0] == '==' else (bool(y['v']) is not True)
+        if n['k'] == 'ref' and n.get('id') in flags:
+            pins.setdefault(i, True)
+    if not any(f.nodes[i]['k'] == 'call' for i in pins):
+        ck.inconclusive(rule, f, 'valid-member-is-stored', lp, 'validator calls not found in the member loop')
+        return
+    nxt = [q for (q, _l) in start.succ] or [start]
+    leak = feasible_reach(g, [start], [g.exit], avoid=adds, pins=pins)
+    again = feasible_reach(g, nxt, [start], avoid=adds, pins=pins) if leak is None else None
+    ok = leak is None and again is None
+    wit = (leak or again or [])
+    ck.verdict(ok, rule, f, 'valid-member-is-stored', lp,
+               'a well-formed member that passes both validators is always stored' if ok else
+               'a member the tokenizer accepted and both validators pass can still be discarded (path through line %s): FromHeader is stricter than Set / IsValidKey / IsValidValue, so ToHeader of a valid state does not parse back' %
+               (', '.join(str(p.line) for p in wit[1:6] if p.n is not None) or '?'))
+
+
 def run(ck, prog):
     ck.doc('C14.R1', 'no member of TraceState modifies the object it is called on', 5)
-    ck.doc('C14.R2', 'validity gates dominate construction; invalid => default/empty; at most 32 members when parsing; what is stored is what was validated', 11)
+    ck.doc('C14.R2', 'validity gates dominate construction; invalid => default/empty; at most 32 members when parsing; what is stored is what was validated; a valid member is always stored', 12)
     ck.doc('C14.R3', 'copy excludes the updated/deleted key; an update of an existing key is never refused; Delete allocates enough', 4)
     ck.doc('C14.R4', 'AddEntry bounded by the allocation; new key only while size < 32', 2)
     ck.doc('C14.R5', 'key lookup compares whole keys; the tokenizer hands out the member parts untransformed', 2)
@@ -627,6 +687,7 @@ def run(ck, prog):
     rule_r1(ck, prog)
     rule_r2(ck, prog)
     rule_r2_validated_is_stored(ck, prog)
+    rule_r2_valid_member_is_stored(ck, prog)
     rule_r3(ck, prog)
     rule_r4(ck, prog)
     rule_r5(ck, prog)
